@@ -404,6 +404,7 @@ META = (META[0] + " " + META_EXTRA, META[1])
 META = (META[0] + ' SIB; IT4i (index-form downward scans reach index 0); RESUME (pattern searches move their candidate by one); CLAMP by viewed object.', META[1])
 META = (META[0] + ' CLAMP direction; ERASECNT.', META[1])
 META = (META[0] + ' ROTINS; BOUND over the const members; RWINDOW.', META[1])
+META = (META[0] + ' IDXLOOP.', META[1])
 
 
 def run(chk, tier):
